@@ -7,6 +7,7 @@ import (
 	"github.com/taskctl/taskctl/pkg/task"
 	"github.com/taskctl/taskctl/pkg/variables"
 	"math/rand"
+	"strconv"
 	"strings"
 	"sync"
 	"time"
@@ -110,6 +111,18 @@ func hasNested(c *schedCfg) bool {
 	return false
 }
 
+func anyShared(c *schedCfg) bool {
+	if c.shared {
+		return true
+	}
+	for _, n := range c.nested {
+		if n != nil && anyShared(n) {
+			return true
+		}
+	}
+	return false
+}
+
 func hasCondErr(c *schedCfg) bool {
 	for _, b := range c.cond {
 		if b == 'e' {
@@ -192,11 +205,39 @@ func schedCase(col *Collector, focus string, p *schedPlan, tag string) {
 				simple = false
 			}
 			line += fmt.Sprintf(" in=%d:%d:%s:%s:%s:%s", i, nc.n, deps(nc), bits(nc.allow), string(nc.cond), bits(nc.ok))
-			ins = append(ins, fmt.Sprintf("in%d=%s/%s", i, joinInts(obs.inner[i][0], ","), joinInts(obs.inner[i][1], ",")))
+			key := strconv.Itoa(i)
+			ins = append(ins, fmt.Sprintf("in%d=%s/%s", i, joinInts(obs.inner[key][0], ","), joinInts(obs.inner[key][1], ",")))
 		}
 		if simple {
 			cs.Line = line
 			cs.Impl = impl + strings.Join(ins, "|")
+		} else if !anyShared(c) {
+			// deeper nesting: the tree model (`Model/Tree.lean`), one node per pipeline
+			tl := "tree"
+			ti := []string{fmt.Sprintf("err=%d", map[bool]int{true: 1, false: 0}[obs.err])}
+			var emit func(c *schedCfg, path string, st, rn []int)
+			emit = func(c *schedCfg, path string, st, rn []int) {
+				shown := path
+				if shown == "" {
+					shown = "-"
+				}
+				tl += fmt.Sprintf(" node=%s:%d:%s:%s:%s:%s", shown, c.n, deps(c), bits(c.allow), string(c.cond), bits(c.ok))
+				ti = append(ti, fmt.Sprintf("%s=%s/%s", shown, joinInts(st, ","), joinInts(rn, ",")))
+				for i, nc := range c.nested {
+					if nc == nil {
+						continue
+					}
+					sub := strconv.Itoa(i)
+					if path != "" {
+						sub = path + "." + sub
+					}
+					emit(nc, sub, obs.inner[sub][0], obs.inner[sub][1])
+				}
+			}
+			emit(c, "", obs.status, runs)
+			cs.Line = tl
+			cs.Impl = strings.Join(ti, "|")
+			cs.Tags = append(cs.Tags, "nested-deep")
 		}
 	}
 	nEdges := 0
@@ -382,6 +423,18 @@ func runSched(col *Collector, focus, tier string, seed int64) {
 				c.nested[s].shared = c.nested[s].shared && !c.viaConfig
 				c.nested[s].plainNames = rng.Intn(2) == 0
 				c.cond[s] = 'n'
+				// one in three: two or three levels deep
+				in := c.nested[s]
+				for depth := 0; depth < 2 && rng.Intn(3) == 0; depth++ {
+					s2, m2 := rng.Intn(in.n), 2+rng.Intn(2)
+					in.nested = make([]*schedCfg, in.n)
+					in.nested[s2] = mk(m2, randDag(m2), randKinds(m2))
+					in.nested[s2].shared = false
+					in.nested[s2].viaConfig = false
+					in.nested[s2].plainNames = rng.Intn(2) == 0
+					in.cond[s2] = 'n'
+					in = in.nested[s2]
+				}
 			}
 		}
 		add(c, "random", []float64{0, 0.5, 1}[i%3], -1)
